@@ -86,8 +86,32 @@ def AddIgnoresOK (st : St) : Bool :=
   NoExtraSep st.lines && CleanCodes st.raw && InRange st.lines st.raw &&
     !D16_twoCodesOneLine st.raw && !D16_ignoreAboveLineOne st.lines st.raw
 
+/-- The scope without the one-code-per-line condition. -/
+def AddIgnoresScope (st : St) : Bool :=
+  NoExtraSep st.lines && CleanCodes st.raw && InRange st.lines st.raw && !D16_ignoreAboveLineOne st.lines st.raw
+
+/-- Two diagnostics with different codes on one line that nothing silences yet: no file-level ignore for
+either code, no trailing ignore comment on their line, and the line above is not a bare ignore comment.
+(In a file without ignore comments this is `D16_twoCodesOneLine`.) -/
+def unprotectedPair (st : St) : Bool :=
+  st.raw.any fun d1 => st.raw.any fun d2 =>
+    d1.line == d2.line && d1.code != d2.code &&
+    !fileLevel st.lines d1.code && !fileLevel st.lines d2.code &&
+    !Pya.C11.trailingMatch (lineAt st.lines d1.line) (some d1.code) &&
+    !Pya.C11.trailingMatch (lineAt st.lines d1.line) (some d2.code) &&
+    !(strip (prevLineOf st.lines d1.line) == IC)
+
 /-- The file with one line inserted before 0-based index `i`. -/
 def insertAt (lines : List Line) (i : Nat) (l : Line) : List Line := lines.take i ++ l :: lines.drop i
+
+/-- One round as it is meant: the first reported diagnostic gets its comment, indented like its line,
+directly above it (line numbers and text taken from the file itself). -/
+def specRound (st : St) : St :=
+  match visible st.lines st.raw with
+  | [] => st
+  | d :: _ =>
+    { lines := insertAt st.lines (d.line - 1) (List.replicate (getIndentation (lineAt st.lines d.line)) ' ' ++ codedIC d.code),
+      raw := st.raw.map (shiftDiag d.line) }
 
 /-- The file `--add-ignores` should produce: above every line with a diagnostic one comment naming its code
 (the first reported one), indented like the line. -/
